@@ -48,6 +48,9 @@ var freshReturning = map[string]int{
 	"encoding/gob.NewEncoder":                          shallow,
 	"encoding/csv.NewReader":                           shallow,
 	"log.New":                                          shallow,
+	// an object taken from a pool belongs to the taker until it is put back (that nothing of it outlives the Put is
+	// C04/C18.poolescape's obligation)
+	"(*sync.Pool).Get": deep,
 	// the slice is newly allocated (grown from nil); its elements are copies of what the sequence yields
 	"slices.Collect":          shallow,
 	"slices.Sorted":           shallow,
